@@ -137,6 +137,27 @@ def _work(args):
                 raise RuntimeError('body raises')
         guarded('tmp_seed(normal body)', tmp_ok)
         guarded('tmp_seed(raising body)', tmp_raise)
+
+        class _Stop(BaseException):
+            pass
+
+        for exc in (KeyboardInterrupt, SystemExit, GeneratorExit, _Stop):
+            def tmp_base(exc=exc):
+                try:
+                    with utils.tmp_seed(k + 1):
+                        np.random.random(3)
+                        raise exc()
+                except BaseException:            # whatever leaves the body (Ctrl-C, sys.exit(), a closed generator)
+                    pass
+            guarded(f'tmp_seed(body left by {exc.__name__})', tmp_base)
+
+        def tmp_gen():
+            def g():
+                with utils.tmp_seed(k + 2):
+                    yield np.random.random()
+                    yield np.random.random()
+            it = g(); next(it); it.close()      # a generator closed early: GeneratorExit inside the with block
+        guarded('tmp_seed(inside a generator closed early)', tmp_gen)
         # the public mixture routine with an explicit seed (every int is a seed, 0 included): same answer whatever the prior
         # state, and the state left alone
         from ampycloud import layer
